@@ -641,6 +641,9 @@ func C04(run *Run) {
 			// the weighted-graph engine keeps contextual tuples in its own index next to the datastore
 			if mg != nil && v1def != nil {
 				for _, eng := range []string{"v2:default", "v2:weight2", "v2:recursive", "server:v2"} {
+					if (eng == "v2:weight2" || eng == "v2:recursive") && !IsPlainSubj(q.U) {
+						continue // see C03: forcing these strategies for userset / wildcard subjects can exhaust memory
+					}
 					ev := &V2Ev{CheckEv: CheckEv{Eng: eng, O: q.O, R: q.R, U: q.U, Ctx: q.Ctx, Ctxt: ct}}
 					if eng == "server:v2" {
 						v.Get("server:v2").RunCheck(ctx, &ev.CheckEv, ts, mg)
